@@ -32,3 +32,34 @@ func envInt(k string) int {
 	fmt.Sscan(os.Getenv(k), &v)
 	return v
 }
+
+func init() {
+	if f := os.Getenv("VERIF_DEBUG_REPLAY"); f != "" {
+		defer os.Exit(0)
+		b, _ := os.ReadFile(f)
+		var r struct {
+			Replay struct {
+				Scenario string `json:"scenario"`
+				Choices  []int  `json:"choices"`
+			} `json:"replay"`
+		}
+		jsonUnmarshal(b, &r)
+		var lk e2.Lookup
+		switch os.Getenv("VERIF_DEBUG_PROP") {
+		case "C39":
+			lk = c39Lookup
+		case "C40":
+			lk = c40Lookup
+		default:
+			lk = c46Lookup
+		}
+		debugLog = true
+		x := lk(r.Replay.Scenario)(r.Replay.Choices)
+		for _, l := range x.Res.Log {
+			fmt.Println(l)
+		}
+		fmt.Println(x.Outcome, "|", x.Violation)
+	}
+}
+
+var debugLog bool
